@@ -27,9 +27,10 @@ MANIFEST = {
             "it, and the lowering of the parallel directive uses every "
             "result of the sharing-attribute inference. Decides that the "
             "checks and clauses are still wired in for every loop.",
-    "note": "Correctness of the dependence analysis (C08) and of the "
-            "inferred private / firstprivate sets, and any actual thread "
-            "schedule, are NOT decided.",
+    "note": "R4 is a cross-site contradiction (tolerated dependence message "
+            "vs. sharing inference), known finding C09-a with a confirmed "
+            "input. Correctness of the dependence analysis (C08) and any "
+            "actual thread schedule are NOT decided.",
     "technique": "path enumeration over validate + super-chain scan + "
                  "def-use of the inference results",
 }
@@ -149,6 +150,39 @@ def check_inference_table(idx, run, cls):
     return n
 
 
+def check_written_once(idx, run, cls):
+    """C09.R4: two sites have to agree about a scalar that the loop only
+    writes (`last = a(i)`): the transformation tolerates the dependence
+    message WARN_SCALAR_WRITTEN_ONCE, so the data-sharing inference has to
+    take such a scalar out of the shared set (every thread writes it; the
+    serial program leaves the value of the last iteration)."""
+    from rules.common_parallel import PLT
+    pcls = idx.get_class(PLT)
+    vfunc = pcls.methods["validate"]
+    vtxt = " ".join(ast.unparse(vfunc).split())
+    tolerated = "WARN_SCALAR_WRITTEN_ONCE" in vtxt
+    ifunc = cls.methods["infer_sharing_attributes"]
+    single_shared = False
+    for stmt in ast.walk(ifunc):
+        if isinstance(stmt, ast.If) and " ".join(
+                ast.unparse(stmt.test).split()) == "len(accesses) == 1" \
+                and any(isinstance(b, ast.Continue) for b in stmt.body):
+            single_shared = True
+    itxt = " ".join(ast.unparse(ifunc).split())
+    lastprivate = "lastprivate" in itxt.lower()
+    run.check(
+        "C09.R4", not (tolerated and single_shared and not lastprivate),
+        "OMPParallelDirective.infer_sharing_attributes",
+        "a scalar only written in the loop does not stay shared",
+        "ParallelLoopTrans.validate ignores the WARN_SCALAR_WRITTEN_ONCE "
+        "dependence message, and infer_sharing_attributes leaves a variable "
+        "with a single access shared (`if len(accesses) == 1: continue`): "
+        "`do i=1,n: last = a(i)` is parallelised with `last` shared, every "
+        "thread writes it and its final value is that of an arbitrary "
+        "iteration where the serial loop leaves a(n)",
+        loc(cls.module, ifunc))
+
+
 def check(idx, run):
     run.explanation = __doc__
     check_generic_validate(idx, run, "C09.R1")
@@ -210,6 +244,7 @@ def check(idx, run):
               "in the region", loc(mod, ifunc))
     # the legacy gen_code path uses the same inference
     check_inference_table(idx, run, cls)
+    check_written_once(idx, run, cls)
     gfunc = cls.methods.get("gen_code")
     if gfunc is not None:
         gtxt = " ".join(ast.unparse(gfunc).split())
